@@ -229,6 +229,9 @@ EDITS = {
         ("rn07", "crates/lib/mimium-lang/src/compiler/mirgen/convert_qualified_names.rs", "    if ctx.is_locally_bound(name) {\n        return Expr::Var(name).into_id(loc);\n    }\n", "", "verus", "resolve_names"),
         ("rn08", "crates/lib/mimium-lang/src/compiler/mirgen/convert_qualified_names.rs", "        if !is_public && !ctx.is_within_module_hierarchy(&target_path) {", "        if !is_public && ctx.is_within_module_hierarchy(&target_path) {", "verus", "resolve_names"),
         ("rn09", "crates/lib/mimium-lang/src/ast/program.rs", "        if exists(&relative_mangled) {\n            return (relative_mangled, relative_path);", "        if exists(&relative_mangled) {\n            return (relative_mangled, path_segments.to_vec());", "verus", "resolve_names"),
+        ("sc01", "crates/lib/mimium-lang/src/compiler/mirgen/convert_qualified_names.rs", "        let _ = self.local_bindings.pop();", "        let _ = self.local_bindings.pop();\n        let _ = self.local_bindings.pop();", "verus", "resolve_walk"),
+        ("sc02", "crates/lib/mimium-lang/src/compiler/mirgen/convert_qualified_names.rs", "        if let Some(scope) = self.local_bindings.last_mut() {\n            scope.insert(symbol);", "        if let Some(scope) = self.local_bindings.first_mut() {\n            scope.insert(symbol);", "verus", "resolve_walk"),
+        ("sc03", "crates/lib/mimium-lang/src/compiler/mirgen/convert_qualified_names.rs", "        self.local_bindings.push(HashSet::new());", "        if self.local_bindings.is_empty() { self.local_bindings.push(HashSet::new()); }", "verus", "resolve_walk"),
         ("rw10", "crates/lib/mimium-lang/src/compiler/mirgen/convert_qualified_names.rs", "            let new_rhs = convert_expr(ctx, rhs);", "            let new_rhs = rhs;", "verus", "resolve_walk"),
         ("rw11", "crates/lib/mimium-lang/src/compiler/mirgen/convert_qualified_names.rs", "            // Unwrap parenthesized expressions\n            convert_expr(ctx, e)", "            // Unwrap parenthesized expressions\n            e", "verus", "resolve_walk"),
         ("rw12", "crates/lib/mimium-lang/src/compiler/mirgen/convert_qualified_names.rs", "            Expr::Apply(new_fun, new_args).into_id(loc)", "            Expr::Apply(fun, new_args).into_id(loc)", "verus", "resolve_walk"),
